@@ -44,6 +44,8 @@ DH(s, ty, fk) == <<"d", s, ty, "HIDDEN", fk>>
 X(s) == <<"x", s>>
 NT(s) == <<"n", s>>
 w == <<"w">>
+\* the ")" of a parenthesis nested in argument text: text, or (once) the place where the program is cut short
+XC == <<"xclose">>
 wb == <<"wb">>
 W == <<"W">>
 C(s) == <<"c", s>>
@@ -141,7 +143,7 @@ Prods(sym, rich) ==
          {<<NT("ValueHead"), NT("ValueRest")>>}
     [] sym = "ValueHead" ->
          \* (a call without arguments must not be followed by "(": CallNoArgText ends in a safe character)
-         Seq1({X(wd) : wd \in Words}) \cup {<<X("("), NT("Balanced"), X(")")>>, <<NT("SQuoted")>>, <<NT("DQuoted")>>,
+         Seq1({X(wd) : wd \in Words}) \cup {<<X("("), NT("Balanced"), XC>>, <<NT("SQuoted")>>, <<NT("DQuoted")>>,
           <<NT("MVarRef")>>, <<NT("CallArgs")>>, <<NT("Builtin")>>, <<NT("CallNoArgText")>>, <<NT("StrCall")>>, <<X("1")>>}
     [] sym = "ValueRest" ->
          {<<>>} \cup
@@ -149,7 +151,7 @@ Prods(sym, rich) ==
     [] sym = "ValuePiece" ->
          \* (a quoted literal glued to a preceding one of the same quote would be one literal with a doubled quote:
          \*  quoted pieces are separated from what precedes them)
-         {<<X("("), NT("Balanced"), X(")")>>, <<X("-"), NT("SQuoted")>>, <<X("-"), NT("DQuoted")>>,
+         {<<X("("), NT("Balanced"), XC>>, <<X("-"), NT("SQuoted")>>, <<X("-"), NT("DQuoted")>>,
           <<NT("MVarRef"), NT("SQuoted")>>, <<NT("MVarRef"), NT("DQuoted")>>, <<NT("MVarRef")>>,
           <<NT("StrCall")>>, <<X("-2")>>, <<NT("ArgStmt")>>}
     \* a macro statement inside an argument value (glued to what precedes it)
@@ -160,7 +162,7 @@ Prods(sym, rich) ==
           <<T("%if"), W, NT("Expr"), wb, T("%then"), W, X("t")>>}
     [] sym = "Balanced" ->
          {<<>>, <<X("a,b")>>, <<X("x=1;y")>>, <<X(", ")>>} \cup
-         (IF rich THEN {<<X("("), NT("Balanced"), X(")"), NT("Balanced")>>, <<X("k="), NT("MVarRef")>>} ELSE {})
+         (IF rich THEN {<<X("("), NT("Balanced"), XC, NT("Balanced")>>, <<X("k="), NT("MVarRef")>>} ELSE {})
     [] sym = "StrCall" ->
          {<<T(k), w, DH("(", "LPAREN", "lparen"), NT("StrText"), <<"close", "rparen", "HIDDEN">>>> : k \in {"%str", "%nrstr"}}
     [] sym = "StrText" ->
@@ -271,7 +273,11 @@ Prods(sym, rich) ==
     [] OTHER -> {}
 
 \* ---------------------------------------------------------------- machine
-NoFault == [kind |-> "", o |-> 0 - 1, lvl |-> 0, closeAt |-> 0 - 1, trunc |-> FALSE]
+NoFault == [kind |-> "", o |-> 0 - 1, lvl |-> 0, closeAt |-> 0 - 1, trunc |-> FALSE, nopen |-> 0]
+\* when the program is cut short: the parentheses still open are the closing items still on the stack
+\* (-1: inside a double-quoted string, where the count is not the property's business)
+NOpen(st) == IF \E i \in 1..Len(st) : st[i] = X("\"") THEN 0 - 1
+             ELSE Cardinality({i \in 1..Len(st) : st[i][1] \in {"close", "xclose"} \/ (st[i][1] = "d" /\ st[i][2] = ")")})
 
 \* initial stacks: a whole program, or (to concentrate random derivations on one construct) the construct
 \* Focus as a %let value, as %put text and in open code, followed by a program
@@ -321,6 +327,20 @@ EmitX ==
   /\ lastSemi' = FALSE
   /\ UNCHANGED <<fuel, fault, lvl>>
 
+EmitXClose ==
+  /\ stack # <<>> /\ Head(stack)[1] = "xclose"
+  /\ \/ /\ Emit(")")
+        /\ exps' = Append(exps, [k |-> "inside", o |-> off, n |-> 1, ty |-> "", ch |-> ""])
+        /\ stack' = Tail(stack)
+        /\ lastSemi' = FALSE
+        /\ UNCHANGED fault
+     \/ \* cut the program short inside the nested parentheses
+        /\ AllowFault /\ fault.kind = ""
+        /\ fault' = [kind |-> "rparen", o |-> off, lvl |-> lvl, closeAt |-> 0 - 1, trunc |-> TRUE, nopen |-> NOpen(stack)]
+        /\ stack' = <<>>
+        /\ UNCHANGED <<out, off, exps, lastSemi>>
+  /\ UNCHANGED <<fuel, lvl>>
+
 EmitInt ==
   /\ stack # <<>> /\ Head(stack)[1] = "int"
   /\ Emit(Head(stack)[2])
@@ -358,7 +378,7 @@ EmitD ==
         \* white space (not empty) separates the omitted delimiter from what precedes it
         \* (starting with a blank: a comment directly after a name continues the name expression)
         /\ (it[5] # "comma" => (out # <<>> /\ out[Len(out)] \in {" ", "\n", " /*c*/ "}))
-        /\ fault' = [kind |-> it[5], o |-> off, lvl |-> lvl, closeAt |-> 0 - 1, trunc |-> FALSE]
+        /\ fault' = [kind |-> it[5], o |-> off, lvl |-> lvl, closeAt |-> 0 - 1, trunc |-> FALSE, nopen |-> 0]
         /\ UNCHANGED <<out, off, exps, lastSemi, lvl>>
   /\ stack' = Tail(stack)
   /\ UNCHANGED fuel
@@ -376,7 +396,7 @@ EmitClose ==
         /\ lastSemi' = FALSE
      \/ \* truncate the program right here: a ")" still open at end of input
         /\ AllowFault /\ fault.kind = "" /\ it[2] \in {"rparen", "scan"}
-        /\ fault' = [kind |-> "rparen", o |-> off, lvl |-> lvl, closeAt |-> 0 - 1, trunc |-> TRUE]
+        /\ fault' = [kind |-> "rparen", o |-> off, lvl |-> lvl, closeAt |-> 0 - 1, trunc |-> TRUE, nopen |-> NOpen(stack)]
         /\ stack' = <<>>
         /\ UNCHANGED <<out, off, exps, lastSemi, lvl>>
   /\ UNCHANGED fuel
@@ -387,12 +407,12 @@ EmitClose ==
 Finish ==
   /\ stack = <<>> /\ ~done
   /\ PrintT(<<"REPLAY", ToJson([src |-> out, exps |-> exps,
-                                fault |-> [kind |-> fault.kind, o |-> fault.o, closeAt |-> fault.closeAt],
+                                fault |-> [kind |-> fault.kind, o |-> fault.o, closeAt |-> fault.closeAt, nopen |-> fault.nopen],
                                 len |-> off])>>)
   /\ done' = TRUE
   /\ UNCHANGED <<stack, out, off, exps, fuel, fault, lastSemi, lvl>>
 
-Step == Expand \/ EmitT \/ EmitC \/ EmitX \/ EmitInt \/ EmitW \/ EmitD \/ EmitClose
+Step == Expand \/ EmitT \/ EmitC \/ EmitX \/ EmitXClose \/ EmitInt \/ EmitW \/ EmitD \/ EmitClose
 Next == (Step /\ UNCHANGED done) \/ Finish
 
 Spec == Init /\ [][Next]_vars
